@@ -28,7 +28,7 @@ From DhtGen Require Import Params.
 Section RunQuery.
 Import Query.
 Inductive qpoint := QPPre | QPWrite (i : nat) | QPGate (i : nat) | QPRet.
-Inductive qaction := QAReply | QACancel | QAClose | QANop.
+Inductive qaction := QAReply | QACancel | QAClose | QABlock | QANop.
 
 Record qscn := mkScn {
   sc_tries : nat;                 (* QueryInput.NumTries as passed (0 = default) *)
@@ -42,7 +42,7 @@ Record qscn := mkScn {
 Definition scn_cfg (sc : qscn) : qcfg :=
   mkQC (eff_tries (sc_tries sc)) (sc_blocked sc) (sc_rl sc) (match sc_budget sc with Some _ => true | None => false end).
 Definition scn_init (sc : qscn) : qstate :=
-  q_init (sc_closed0 sc) (match sc_budget sc with Some b => b | None => 0 end).
+  q_init (sc_closed0 sc) (match sc_budget sc with Some b => b | None => 0 end) (sc_blocked sc).
 
 Definition point_enabled (s : qstate) (p : qpoint) : bool :=
   match p with
@@ -59,13 +59,23 @@ Definition point_passed (s : qstate) (p : qpoint) : bool :=
   end.
 
 Definition action_label (a : qaction) : option label :=
-  match a with QAReply => Some EReplyArrives | QACancel => Some ECtxCancel | QAClose => Some EServerClose | QANop => None end.
-Definition terminating (a : qaction) : bool := match a with QAReply | QACancel => true | _ => false end.
+  match a with
+  | QAReply => Some EReplyArrives | QACancel => Some ECtxCancel | QAClose => Some EServerClose
+  | QABlock => Some EBlockDest            (* Server.SetIPBlockList covering the destination *)
+  | QANop => None
+  end.
+(* after these the harness's delay function returns an hour: a cancellation, or a reply the server can take *)
+Definition terminating (s : qstate) (a : qaction) : bool :=
+  match a with
+  | QACancel => true
+  | QAReply => negb (q_closed s) && negb (q_blocked s)
+  | _ => false
+  end.
 
 (* the rq_outcome of the send about to happen, as configuration and state fix it *)
 Definition send_label (sc : qscn) (c : qcfg) (s : qstate) : label :=
   if q_closed s then ESendErr CClosed
-  else if qc_blocked c then ESendErr CBlocked
+  else if q_blocked s then ESendErr CBlocked
   else if no_budget c s then ESendErr CRate
   else if Nat.eqb (S (q_writes s)) (sc_fail sc) then ESendErr CSocket
   else ESendOk.
@@ -135,7 +145,7 @@ Fixpoint explore (fuel : nat) (sc : qscn) (c : qcfg) (s : qstate) (script : list
         match script with
         | (p, a) :: rest =>
             if point_enabled s p then
-              [ (match action_label a with Some l => step_en c s l | None => s end, rest, term || terminating a) ]
+              [ (match action_label a with Some l => step_en c s l | None => s end, rest, term || terminating s a) ]
             else if point_passed s p then [ (s, rest, term) ]
             else []
         | [] => []
